@@ -720,7 +720,9 @@ pub fn alt_order(common_syntax: bool) -> Vec<String> {
 // ---------------------------------------------------------------------------
 // fixed witnesses (known findings and regression shapes), always run
 
-pub const WITNESSES: [&str; 86] = [
+pub const WITNESSES: [&str; 94] = [
+    // round 11: a literal run whose characters differ in case-sensitivity, compiled as one unit
+    "(?<=a(?i)b)c", "(?=a(?i)b).", "(?>a(?i)b)c(?=)", "(?i)(?<=\\.a)x", "(?<!a(?i:b))c", "(?<=(?i)a(?-i)b)c", "(?i)(?=\\.a).", "(?>\\.(?i)a)b(?!c)",
     // round 10: titlecase / special-folding literals under (?i) beside a hard element; group
     // tests and backreferences spelled as a number between name delimiters or relative
     "(?i)\u{1c5}(?=)", "(?i)(?=)\u{1c5}", "(?i:\u{1c8})b(?=)", "(?i)((?=)\u{1c5})", "(?i)\u{1c5}", "(?i)a\u{1c5}(?!b)", "(?i)\u{17f}(?=)", "(?i)\u{212a}(?!b)", "(?:(a)|\\w)(?(<-1>)b|c)", "(?:a|(a))(?(<1>)b|c)", "(?:(a)|.)(?('1')b|c)", "(?:(a)|.)(?!\\k<-1>)", "(?:(a)b|ab)(?(<1>)c|d)", "(?:(a)|.)\\k<1>?(?(<-1>)b|c)",
